@@ -34,11 +34,29 @@ func Harness_E_C07() {
 	for _, e := range in.src {
 		src0 = append(src0, []string{e[0], e[1]})
 	}
+	var c0 graph.Layout
+	if in.sz == 6 {
+		// history: a call with the first map alone, before and after the calls that combine two maps
+		c0 = Layout(in.src, WithNodeSize(in.sizes), WithNodeSpacing(in.ns), WithLayerSpacing(in.ls))
+	}
 	a := Layout(in.src, in.opts...)
 	b := Layout(in.src, in.opts...)
 	vhReach("returned")
 	vhObserveLayout(a)
 	vhSameLayout(a, b, "repeat")
+	if in.sz == 6 {
+		c1 := Layout(in.src, WithNodeSize(in.sizes), WithNodeSpacing(in.ns), WithLayerSpacing(in.ls))
+		vhSameLayout(c0, c1, "repeat-after-other-options")
+		cnt2 := 0
+		for i := 0; i < in.n; i++ {
+			if i%2 == 1 || i == 0 {
+				cnt2++
+				s, ok := in.sizes2[in.ids[i]]
+				vhAssert(ok && s.W == in.w2[i] && s.H == in.h2[i] && s.X == 0 && s.Y == 0, "input-size-map-unmodified")
+			}
+		}
+		vhAssert(len(in.sizes2) == cnt2, "input-size-map-unmodified")
+	}
 	vhAssert(len(in.src) == len(src0), "input-edge-list-unmodified")
 	for i := range src0 {
 		vhAssert(len(in.src[i]) == 2 && in.src[i][0] == src0[i][0] && in.src[i][1] == src0[i][1], "input-edge-list-unmodified")
